@@ -15,6 +15,10 @@ import (
 type TypedReader interface {
 	// Read allocates a []T of length n, reads into it and returns the filled prefix.
 	Read(n int) (batch any, got int, err error)
+	// NewBatch allocates a []T of length n; ReadInto reads into a caller-owned (reused) []T.
+	NewBatch(n int) any
+	ReadInto(batch any) (got int, err error)
+	Reset()
 	ReadRows(rows []parquet.Row) (int, error)
 	SeekToRow(int64) error
 	NumRows() int64
@@ -51,6 +55,15 @@ func (t typedReader[T]) Read(n int) (batch any, got int, err error) {
 	buf := make([]T, n)
 	got, err = t.r.Read(buf)
 	return buf[:got], got, err
+}
+func (t typedReader[T]) NewBatch(n int) any { return make([]T, n) }
+func (t typedReader[T]) ReadInto(batch any) (got int, err error) {
+	defer catch(&err)
+	return t.r.Read(batch.([]T))
+}
+func (t typedReader[T]) Reset() {
+	defer func() { recover() }()
+	t.r.Reset()
 }
 func (t typedReader[T]) ReadRows(rows []parquet.Row) (n int, err error) {
 	defer catch(&err)
